@@ -254,6 +254,71 @@ pub fn make_plugins(names: &[&str]) -> Vec<Plugin<'static>> {
         .collect()
 }
 
+/// the scalars plugin after it was told the extensions a JavaScript schema would carry for these scalar types
+/// (`extensions: { codegenScalarType: ... }`; @nitrogql/core adds `nitrogql:kind`)
+pub fn scalars_plugin_with(extensions: &[(String, serde_yaml::Value)]) -> Plugin<'static> {
+    let mut table: HashMap<String, HashMap<String, serde_yaml::Value>> = HashMap::new();
+    for (ty, codegen) in extensions {
+        let mut m = HashMap::new();
+        m.insert("nitrogql:kind".to_string(), serde_yaml::Value::String("scalar".into()));
+        m.insert("codegenScalarType".to_string(), codegen.clone());
+        table.insert(ty.clone(), m);
+    }
+    let mut p = Plugin::new(Box::<nitrogql_plugin::GraphQLScalarsPlugin>::default());
+    p.load_schema_extensions(nitrogql_plugin::PluginSchemaExtensions { type_extensions: &table });
+    p
+}
+
+struct LeakHost;
+impl nitrogql_plugin::PluginHost for LeakHost {
+    fn load_virtual_file(&mut self, content: String) -> &'static str {
+        Box::leak(content.into_boxed_str())
+    }
+}
+
+/// what main.rs::extend_loaded_schema appends for the plugins
+pub fn plugin_additions(plugins: &[Plugin<'static>]) -> Result<Vec<TypeSystemOrExtensionDocument<'static>>, String> {
+    let mut out = vec![];
+    for p in plugins {
+        if let Some(a) = p.schema_addition(&mut LeakHost).map_err(|e| format!("plugin schema addition does not parse: {}", e.into_message()))? {
+            out.push(a);
+        }
+    }
+    Ok(out)
+}
+
+/// resolve_and_check_schema with the plugins' schema additions appended after the built-ins, as the CLI does
+pub fn resolve_and_check_schema_with<'a>(mut doc: TypeSystemOrExtensionDocument<'a>, additions: Vec<TypeSystemOrExtensionDocument<'a>>) -> Result<TypeSystemDocument<'a>, Failure> {
+    doc.extend(graphql_builtins::generate_builtins());
+    doc.extend(cli_builtins::nitrogql_builtins());
+    for a in additions {
+        doc.extend(a.definitions);
+    }
+    let resolved = match resolve_schema_extensions(doc) {
+        Ok(r) => r,
+        Err(e) => {
+            let pe: PositionedError = e.into();
+            let kind = if pe.inner_text().starts_with("Duplicated") { "DuplicateOriginal" } else { "NoOriginal" };
+            return Err(Failure::one("resolve-schema-extensions", kind, pe));
+        }
+    };
+    let errors = check_type_system_document(&resolved);
+    if !errors.is_empty() {
+        let diags = errors.iter().map(|e| diag_from_check("check-schema", e)).collect();
+        return Err(Failure { diags, rendered_inputs: errors.into_iter().map(|e| e.into()).collect() });
+    }
+    Ok(resolved)
+}
+
+pub fn resolvers_dts_with_plugins(doc: &TypeSystemDocument, config: &Config, schema_source: &str, plugins: &[Plugin]) -> Result<SourceWriterBuffers, String> {
+    let mut options = ResolverTypePrinterOptions::from_config(config);
+    options.schema_source = schema_source.to_string();
+    let mut writer = SourceWriter::new();
+    let mut printer = ResolverTypePrinter::new(options, &mut writer);
+    printer.print_document(doc, plugins).map_err(|e| format!("{e:?}"))?;
+    Ok(writer.into_buffers())
+}
+
 pub fn resolvers_dts_plugins(doc: &TypeSystemDocument, config: &Config, schema_source: &str, names: &[&str]) -> Result<SourceWriterBuffers, String> {
     let mut options = ResolverTypePrinterOptions::from_config(config);
     options.schema_source = schema_source.to_string();
